@@ -213,6 +213,18 @@ CHECKS["C14"] = dict(
     design="3/C14",
 )
 
+CHECKS["C04"] = dict(
+    technique="symbolic tensor execution of every gauging / canonization / simplification rewrite on object arrays of polynomial entries; dense tensor over the same outer labels (independent sum-of-products reference times 10**exponent) compared before and after by z3 (QF_LRA identities with denominators of 1/det and 1/norm cleared); QR/SVD/eigh-based rewrites by linear Nullstellensatz certificates modulo LAPACK contract stubs; structured tensors with literal zeros make the array_ops structure finders fire under plain Python",
+    text="Bounded symbolic model checking: on small networks (<= 5 tensors, dims <= 3; chains, a triangle, rings, multibonds, size-1 dimensions, hyper-indices, a symbolic stored exponent; exactly "
+         "diagonal / anti-diagonal / single-column / COPY tensors) gauge insertion and removal, canonization of bonds and regions, untruncated compression, fusing, squeezing, exponent and norm "
+         "equalization, hyper-index resolution, every simplification pass and 294 ordered pairs / 23 longer compositions of them keep the denoted tensor over the same outer labels for all entry "
+         "values; tensors flagged through left_inds are isometries, canonical regions are isometric towards the centre, requested norms are met.",
+    note="Trusted: z3, qv engines, LAPACK contracts (positive singular values, positive R diagonal), non-zero norms and determinants, finder-inspected entries bounded away from atol. "
+         "Numeric-only supplements (labelled): 65 heavy (geometry, option) cells, balance_bonds on generic tensors, gauge_all_random, low-rank split_simplify. Outside: truncating calls, "
+         "effectiveness of the passes, belief-propagation gauging (C14), contract_compressed (C12). Three known findings (squeeze default, hyper index + pairwise sweeps, canonize_around through a hyper index).",
+    design="3/C04",
+)
+
 NA = {}
 
 
